@@ -4,6 +4,7 @@ import (
 	"fmt"
 	"io"
 	"math"
+	"strings"
 	"time"
 
 	tally "github.com/uber-go/tally/v4"
@@ -67,7 +68,12 @@ func lifecycleCase(c *mon.Ctx, r *mon.Rand, prop string) {
 		return map[string]interface{}{"cached": cached, "both_reporter_kinds": recB != nil, "root_tags": len(opts.Tags), "ops": ops}
 	}
 	c.Eval(1)
-	bad := func(sig, why string) { c.Violation(sig, map[string]interface{}{"why": why, "case": desc()}) }
+	bad := func(sig, why string) {
+		if prop == "C03" && !strings.Contains(why, "histogram") {
+			return // C03 looks at the histogram evidence of these histories only
+		}
+		c.Violation(sig, map[string]interface{}{"why": why, "case": desc()})
+	}
 
 	type handles struct {
 		c tally.Counter
@@ -82,6 +88,8 @@ func lifecycleCase(c *mon.Ctx, r *mon.Rand, prop string) {
 	wantCtr := map[string]int64{}
 	wantGauge := map[string][]uint64{} // values passed, in order
 	untouched := map[string]bool{}     // keys that must never see a delivery
+	lastGauge := map[string]uint64{}   // keys whose final delivered value is known
+	wantHistLow := map[string]int64{}  // histogram key -> samples recorded while live (all in the bucket up to 10)
 	nGen := r.Range(2, 5)
 	var seq int64
 	c.Guard("panic-lifecycle", desc, func() {
@@ -108,7 +116,8 @@ func lifecycleCase(c *mon.Ctx, r *mon.Rand, prop string) {
 			v := float64(seq) + 0.25
 			h.g.Update(v)
 			wantGauge[key("g")] = append(wantGauge[key("g")], math.Float64bits(v))
-			h.h.RecordValue(1)
+			h.h.RecordValue(1) // live samples land in (-inf,10], samples through stale handles in (10,+inf)
+			wantHistLow[key("h")]++
 			if r.Bool() {
 				tally.VerifReportPass(root)
 				ops = append(ops, "pass")
@@ -140,7 +149,7 @@ func lifecycleCase(c *mon.Ctx, r *mon.Rand, prop string) {
 				seq++
 				sh.c.Inc(1000000)
 				sh.g.Update(float64(2000000 + seq))
-				sh.h.RecordValue(1)
+				sh.h.RecordValue(100)
 				sh.h.Start().Stop()
 			}
 			// ... and makes first uses of new names on the closed (possibly already
@@ -176,6 +185,24 @@ func lifecycleCase(c *mon.Ctx, r *mon.Rand, prop string) {
 				ops = append(ops, "pass")
 			}
 		}
+		// two metrics whose names and tags differ but whose delimiter-joined
+		// rendering (name + '+' + k=v pairs) is one string: two metrics nevertheless
+		if len(opts.Tags) == 0 {
+			twin := root.Tagged(map[string]string{"k": "v+"})
+			ga, gb := root.Gauge("tw+k=v"), twin.Gauge("tw")
+			ca, cb := root.Counter("tw+k=v"), twin.Counter("tw")
+			ga.Update(11.25)
+			gb.Update(22.5)
+			ca.Inc(11)
+			cb.Inc(22)
+			ka, kb := mon.IdentKey("tw+k=v", nil), mon.IdentKey("tw", map[string]string{"k": "v+"})
+			wantGauge[ka] = append(wantGauge[ka], math.Float64bits(11.25))
+			wantGauge[kb] = append(wantGauge[kb], math.Float64bits(22.5))
+			wantCtr[ka] += 11
+			wantCtr[kb] += 22
+			lastGauge[ka], lastGauge[kb] = math.Float64bits(11.25), math.Float64bits(22.5)
+			ops = append(ops, "metric twins tw+k=v{} and tw{k:v+}")
+		}
 		tally.VerifReportPass(root)
 		_ = staleKeys
 	})
@@ -208,6 +235,7 @@ func lifecycleCase(c *mon.Ctx, r *mon.Rand, prop string) {
 	}
 	gotCtr := map[string]int64{}
 	gotGauge := map[string][]uint64{}
+	gotHistLow := map[string]int64{}
 	for _, ev := range log {
 		switch ev.Kind {
 		case mon.EvCounter:
@@ -221,6 +249,9 @@ func lifecycleCase(c *mon.Ctx, r *mon.Rand, prop string) {
 				bad("delivery-for-never-recorded-metric", fmt.Sprintf("gauge %q %v was never updated but %v was delivered for it", ev.Name, ev.Tags, math.Float64frombits(ev.F)))
 			}
 		case mon.EvHistV, mon.EvHistD:
+			if ev.Kind == mon.EvHistV && ev.Hi == 10 {
+				gotHistLow[mon.IdentKey(ev.Name, ev.Tags)] += ev.I
+			}
 			if untouched["hist:"+ev.Name] {
 				bad("delivery-for-never-recorded-metric", fmt.Sprintf("histogram %q was never recorded on but %d samples were delivered for it", ev.Name, ev.I))
 			}
@@ -237,6 +268,11 @@ func lifecycleCase(c *mon.Ctx, r *mon.Rand, prop string) {
 			bad("conservation-lifecycle", fmt.Sprintf("counter %q: %d delivered, %d added while its scope was live (modulo later increments through stale handles, each >= 1000000)", k, g, w))
 		}
 	}
+	for k, w := range wantHistLow {
+		if gotHistLow[k] != w && prop != "C02" {
+			bad("conservation-lifecycle", fmt.Sprintf("histogram %q: %d samples delivered in the bucket up to 10, %d recorded there while its scope was live (stale handles only record above 10)", k, gotHistLow[k], w))
+		}
+	}
 	for k, w := range wantGauge {
 		set := map[uint64]bool{}
 		for _, x := range w {
@@ -250,7 +286,58 @@ func lifecycleCase(c *mon.Ctx, r *mon.Rand, prop string) {
 		}
 		if len(gotGauge[k]) == 0 {
 			bad("stale-value", fmt.Sprintf("gauge %q: nothing delivered although it was updated while its scope was live", k))
+		} else if lg, ok := lastGauge[k]; ok && gotGauge[k][len(gotGauge[k])-1] != lg {
+			bad("stale-value", fmt.Sprintf("gauge %q: the last delivered value is %v, the last update %v", k, math.Float64frombits(gotGauge[k][len(gotGauge[k])-1]), math.Float64frombits(lg)))
 		}
+	}
+	if prop == "C07" {
+		// the reporter-less flavour: a test scope hands a closed subscope out again,
+		// and the scope obtained afterwards is fully functional - first uses of new
+		// names included, on it and on what is derived from the test scope next
+		ts := tally.NewTestScope(r.Pick("", "t"), nil)
+		pfx := mon.RefName(r.Pick("", "t"), ".", "")
+		_ = pfx
+		c.Guard("panic-lifecycle", desc, func() {
+			sub := ts.SubScope("a")
+			sub.Counter("before").Inc(1)
+			sub.(io.Closer).Close()
+			again := ts.SubScope("a")
+			again.Counter("after").Inc(2)
+			again.Gauge("g-after").Update(3)
+			again.Timer("t-after").Record(time.Second)
+			again.Histogram("h-after", vb).RecordValue(1)
+			snap := ts.Snapshot()
+			found := map[string]bool{}
+			for _, cs := range snap.Counters() {
+				if strings.HasSuffix(cs.Name(), "a.before") && cs.Value() == 1 {
+					found["before"] = true
+				}
+				if strings.HasSuffix(cs.Name(), "a.after") && cs.Value() == 2 {
+					found["after"] = true
+				}
+			}
+			for _, gs := range snap.Gauges() {
+				if strings.HasSuffix(gs.Name(), "a.g-after") && gs.Value() == 3 {
+					found["g-after"] = true
+				}
+			}
+			for _, tsn := range snap.Timers() {
+				if strings.HasSuffix(tsn.Name(), "a.t-after") && len(tsn.Values()) == 1 {
+					found["t-after"] = true
+				}
+			}
+			for _, hs := range snap.Histograms() {
+				if strings.HasSuffix(hs.Name(), "a.h-after") && hs.Values()[10] == 1 {
+					found["h-after"] = true
+				}
+			}
+			for _, k := range []string{"before", "after", "g-after", "t-after", "h-after"} {
+				if !found[k] {
+					c.Violation("reobtained-test-subscope-not-functional", map[string]interface{}{"why": fmt.Sprintf("test scope: SubScope(\"a\") closed and obtained again; the metric %q (first used %s the Close) is not in the snapshot with what was recorded", k, map[bool]string{true: "before", false: "after"}[k == "before"]), "found": fmt.Sprint(found)})
+				}
+			}
+			c.Event("reobtained-test-subscopes-checked", 1)
+		})
 	}
 	c.Distinct(mon.Hash64("lifecycle", fmt.Sprint(ops)))
 	if c.WantSample() {
